@@ -22,12 +22,10 @@ import (
 	"crypto/sha256"
 	"encoding/binary"
 	"fmt"
-	"io"
 	"net"
 	"sort"
 	"strings"
 	"testing"
-	"testing/synctest"
 	"time"
 
 	"github.com/libp2p/go-libp2p/core/crypto"
@@ -293,38 +291,24 @@ func (k *c02Tracker) trace() string {
 	return strings.Join(k.rle, " ")
 }
 
-// ---------- read-buffer policies ----------
+// ---------- links ----------
 
-type c02Policy struct {
-	Name string
-	Rel  bool // size = pending + D, else fixed D
-	D    int
-}
-
-func (p c02Policy) size(pending int) int {
-	if p.Rel {
-		return pending + p.D
-	}
-	return p.D
-}
-
-func c02Policies(L int, thorough bool) []c02Policy {
-	var out []c02Policy
-	seen := map[int]bool{}
-	fixed := []int{1, 2, 15, 16, 17, MaxPlaintextLength, MaxTransportMsgLength, 65536, 65537, 70000, L + 1}
-	if thorough {
-		fixed = append(fixed, 3, 4096, MaxPlaintextLength-1, MaxPlaintextLength+1, MaxTransportMsgLength-1, 2*MaxPlaintextLength, L+16, L+17)
-	}
-	for _, f := range fixed {
-		if f >= 1 && !seen[f] {
-			seen[f] = true
-			out = append(out, c02Policy{Name: fmt.Sprintf("r=%d", f), D: f})
+// c02Setup returns the setup function of one direction of a fresh, handshaken session (optionally over the
+// PSK layer) with the white-box tracker wired to the reader.
+func c02Setup(ti, tr *Transport, stack, dir string, short, writes []int) func() (*memconn.Link, error) {
+	return func() (*memconn.Link, error) {
+		p, err := c02Handshake(ti, tr, short, stack == "psk>noise")
+		if err != nil {
+			return nil, err
 		}
+		w, rd, rraw := p.ini, p.res, p.cb
+		if dir == "r2i" {
+			w, rd, rraw = p.res, p.ini, p.ca
+		}
+		trk := &c02Tracker{s: rd, frames: c02Frames(writes)}
+		return &memconn.Link{W: w, R: rd, RRaw: rraw, CloseW: w.Close, Close: func() { p.ca.Close(); p.cb.Close() },
+			Pending: trk.pending, Before: trk.before, After: trk.after, Extra: trk}, nil
 	}
-	for _, d := range []int{-1, 0, 1, 15, 16, 17} {
-		out = append(out, c02Policy{Name: fmt.Sprintf("r=pending%+d", d), Rel: true, D: d})
-	}
-	return out
 }
 
 // ---------- grid ----------
@@ -348,142 +332,37 @@ func c02ShortWrites(w []int) []int {
 	return w
 }
 
-var c02Lengths = []int{0, 1, 2, 15, 16, 17,
+// 4078 = 4096 - 2 - 16: frame + length prefix fill the 4096-byte bufio.Reader of the session exactly
+var c02Lengths = []int{0, 1, 2, 15, 16, 17, 4077, 4078, 4079,
 	MaxPlaintextLength - 1, MaxPlaintextLength, MaxPlaintextLength + 1,
 	MaxTransportMsgLength - 1, MaxTransportMsgLength, MaxTransportMsgLength + 1,
 	2*MaxPlaintextLength - 1, 2 * MaxPlaintextLength, 2*MaxPlaintextLength + 1, 3*MaxPlaintextLength + 1}
 
+var c02LengthsThorough = []int{3, 4061, 4062, 4063, 4093, 4094, 4095, 4096, 4097, 8174, 32768,
+	MaxPlaintextLength - 17, MaxPlaintextLength - 16, MaxPlaintextLength - 15, 2 * MaxTransportMsgLength, 4 * MaxPlaintextLength, 4*MaxPlaintextLength + 1}
+
 var c02ShortPatterns = [][]int{{0}, {1}, {2}, {3}, {7}, {4096}}
+var c02ShortPatternsThorough = [][]int{{1, 7, 3}, {4096, 1}, {2, 65535}, {4095}, {4097}}
 
-type c02Run struct {
-	r        *vrep.Result
-	ti, tr   *Transport
-	deadline time.Time
-	capped   bool
-	idx      int
-	shardI   int
-	shardN   int
-	payloads map[int][]byte
-	distinct map[[16]byte]struct{}
-	pairs    map[string]int
-	buf      []byte
+func c02Policies(L int, thorough bool) []memconn.Policy {
+	fixed := []int{1, 2, 15, 16, 17, MaxPlaintextLength, MaxTransportMsgLength, 65536, 65537, 70000, L + 1}
+	if thorough {
+		fixed = append(fixed, 3, 4096, MaxPlaintextLength-1, MaxPlaintextLength+1, MaxTransportMsgLength-1, 2*MaxPlaintextLength, L+16, L+17)
+	}
+	return memconn.Policies(fixed, []int{-1, 0, 1, 15, 16, 17})
 }
 
-func (g *c02Run) mine() bool {
-	g.idx++
-	return (g.idx-1)%g.shardN == g.shardI
-}
-
-func (g *c02Run) payload(L int, dir string) []byte {
-	k := L*2 + len(dir)%2
-	if p, ok := g.payloads[k]; ok {
+func c02Payload(cache map[string][]byte, L int, dir string) []byte {
+	k := fmt.Sprint(L, dir)
+	if p, ok := cache[k]; ok {
 		return p
 	}
 	seed := uint64(0xC02)
 	if dir == "r2i" {
 		seed = 0xC02B
 	}
-	p := memconn.Pattern(seed, L)
-	g.payloads[k] = p
-	return p
-}
-
-func (g *c02Run) overDeadline() bool {
-	if g.capped {
-		return true
-	}
-	if time.Now().After(g.deadline) {
-		g.capped = true
-		g.r.Cap("deadline reached at grid point %d", g.idx)
-	}
-	return g.capped
-}
-
-// c02Bubble runs f in a fresh bubble; a panic of the bubble itself (deadlock: somebody waits for bytes
-// that cannot come any more) is returned as text.
-func c02Bubble(t *testing.T, f func()) (panicked string) {
-	defer func() {
-		if e := recover(); e != nil {
-			panicked = fmt.Sprint(e)
-		}
-	}()
-	synctest.Test(t, func(*testing.T) { f() })
-	return ""
-}
-
-// one grid point
-func (g *c02Run) point(t *testing.T, c c02Case, writes []int, pol c02Policy) {
-	var prob *memconn.Problem
-	var infra error
-	var trk *c02Tracker
-	var tr *memconn.Transfer
-	var eofClass string
-	pan := c02Bubble(t, func() {
-		p, err := c02Handshake(g.ti, g.tr, c.Short, c.Stack == "psk>noise")
-		if err != nil {
-			infra = err
-			return
-		}
-		defer p.ca.Close()
-		defer p.cb.Close()
-		w, rd, rraw := p.ini, p.res, p.cb
-		if c.Dir == "r2i" {
-			w, rd, rraw = p.res, p.ini, p.ca
-		}
-		trk = &c02Tracker{s: rd, frames: c02Frames(writes)}
-		tr = &memconn.Transfer{
-			W: w, R: rd, Payload: g.payload(c.L, c.Dir), Writes: writes, DrainEach: c.Each, Buf: g.buf,
-			ReadSize: func(_, _ int) int { return pol.size(trk.pending()) },
-			Before:   trk.before,
-			After:    trk.after,
-			Arm:      func() { rraw.SetReadDeadline(time.Now().Add(time.Hour)) },
-		}
-		prob = tr.Run()
-		if prob == nil {
-			w.Close() // the reader sees the end of the stream
-			eofClass, prob = tr.AfterClose(4)
-		}
-		g.buf = tr.Buf
-	})
-	g.r.Executions++
-	c.Writes = c02ShortWrites(writes)
-	if trk != nil {
-		c.Trace = trk.trace()
-	}
-	switch {
-	case pan != "":
-		// the bubble deadlocked or the code under test panicked: somebody lost track of the byte stream
-		g.r.Violate("noise:panic-or-deadlock", pan, c)
-		return
-	case infra != nil:
-		// a failing fault-free handshake is not what this property is about, but nothing can be checked then
-		g.r.Violate("noise:baseline-handshake-failed", infra.Error(), c)
-		return
-	case prob != nil:
-		g.r.Violate(c.Stack+":"+prob.Key, prob.Desc, c)
-		g.r.Outcome("VIOLATION " + prob.Key)
-		return
-	}
-	for k, v := range trk.pairs {
-		g.pairs[k] += v
-	}
-	for _, m := range trk.mismatch {
-		g.r.Outcome("path-model-mismatch")
-		g.r.Note("path model mismatch at %+v: %s", c, m)
-	}
-	if tr.InputModified {
-		g.r.Outcome("writer-modified-its-input-slice")
-	}
-	g.r.Outcome("delivered-intact end=" + eofClass)
-	h := sha256.Sum256([]byte(fmt.Sprintf("%s|%s|%v|%v|%s", c.Stack, c.Dir, trk.frames, c.Short, c.Trace)))
-	var hk [16]byte
-	copy(hk[:], h[:16])
-	if _, ok := g.distinct[hk]; !ok {
-		g.distinct[hk] = struct{}{}
-		if len(g.distinct)%997 == 1 {
-			g.r.Sample(c)
-		}
-	}
+	cache[k] = memconn.Pattern(seed, L)
+	return cache[k]
 }
 
 func TestVerifC02Noise(t *testing.T) {
@@ -494,60 +373,82 @@ func TestVerifC02Noise(t *testing.T) {
 		r.Cap("infrastructure: cannot create transports: %v", err)
 		return
 	}
-	g := &c02Run{r: r, ti: ti, tr: tr, deadline: vrep.Deadline(), payloads: map[int][]byte{}, distinct: map[[16]byte]struct{}{}, pairs: map[string]int{}}
-	g.shardI, g.shardN = vrep.Shard()
+	b := memconn.NewBook(r)
+	defer b.Finish()
 	thorough := vrep.Thorough()
-
-	lengths := c02Lengths
-	shorts := c02ShortPatterns
-	stacks := []string{"noise", "psk>noise"}
+	lengths, shorts := c02Lengths, c02ShortPatterns
+	if thorough {
+		lengths = append(append([]int{}, lengths...), c02LengthsThorough...)
+		sort.Ints(lengths)
+		shorts = append(append([][]int{}, shorts...), c02ShortPatternsThorough...)
+	}
 	r.Bounds["L"] = lengths
 	r.Bounds["write_splits"] = "whole, 1+rest, rest+1, 65519+rest, 65520+rest, thirds, 0+L+0, 1-byte writes for L<=4096"
-	r.Bounds["short_read_patterns"] = shorts
+	r.Bounds["short_read_patterns(cyclic, 0=unlimited)"] = shorts
 	r.Bounds["directions"] = "initiator->responder, responder->initiator"
 	r.Bounds["read_after"] = "each write | last write"
-	r.Bounds["stacks"] = "noise: full grid; psk>noise: reduced (see psk_noise_*)"
-	r.Bounds["read_policies"] = func() []string {
-		var s []string
-		for _, p := range c02Policies(-1, thorough) {
-			s = append(s, p.Name)
-		}
-		return s
-	}()
+	r.Bounds["stacks"] = "noise: full grid; psk>noise: L in {0,17,65520,131039}, short reads {unlimited,1,7}"
+	if !thorough {
+		r.Bounds["quick_reduction"] = "second direction and read-after-each-write only with short reads {unlimited,1}"
+	}
+	var pn []string
+	for _, p := range c02Policies(-1, thorough) {
+		pn = append(pn, p.Name)
+	}
+	r.Bounds["read_policies(pending = queued remainder, else plaintext size of the next frame)"] = pn
 
-	for _, stack := range stacks {
+	payloads := map[string][]byte{}
+	pairs := map[string]int{}
+	mismatches := 0
+	for _, stack := range []string{"noise", "psk>noise"} {
 		for _, L := range lengths {
-			if stack == "psk>noise" {
-				// the PSK layer is transparent to Noise: reduced length set
-				if !(L == 0 || L == 17 || L == MaxPlaintextLength+1 || L == 2*MaxPlaintextLength+1) {
-					continue
-				}
+			if stack == "psk>noise" && !(L == 0 || L == 17 || L == MaxPlaintextLength+1 || L == 2*MaxPlaintextLength+1) {
+				continue // the PSK layer is transparent to Noise: reduced length set
 			}
 			for _, sp := range memconn.Splits(L, []int{MaxPlaintextLength, MaxPlaintextLength + 1}, 4096) {
-				for _, pol := range c02Policies(L, thorough) {
-					for _, short := range shorts {
-						if stack == "psk>noise" && !(short[0] == 0 || short[0] == 1 || short[0] == 7) {
+				frames := c02Frames(sp.Sizes)
+				for _, short := range shorts {
+					if stack == "psk>noise" && !(len(short) == 1 && (short[0] == 0 || short[0] == 1 || short[0] == 7)) {
+						continue
+					}
+					for _, dir := range []string{"i2r", "r2i"} {
+						// all points with the same (stack, direction, frames, short reads) in one worker:
+						// the distinct-trace sets of the workers are then disjoint
+						if !b.Mine(stack, dir, frames, short) {
 							continue
 						}
-						for _, dir := range []string{"i2r", "r2i"} {
-							for _, each := range []bool{false, true} {
-								if each && len(sp.Sizes) == 1 {
-									continue // identical to reading after the last write
-								}
-								if !thorough {
-									// quick tier: the second direction and read-after-each-write only with
-									// unlimited and 1-byte short reads
-									if (dir == "r2i" || each) && !(short[0] == 0 || short[0] == 1) {
-										continue
-									}
-								}
-								if !g.mine() {
-									continue
-								}
-								if g.overDeadline() {
+						for _, each := range []bool{false, true} {
+							if each && len(sp.Sizes) == 1 {
+								continue // identical to reading after the last write
+							}
+							if !thorough && (dir == "r2i" || each) && !(short[0] == 0 || short[0] == 1) {
+								continue
+							}
+							for _, pol := range c02Policies(L, thorough) {
+								if b.Over() {
 									goto done
 								}
-								g.point(t, c02Case{Stack: stack, Dir: dir, L: L, Split: sp.Name, Policy: pol.Name, Short: short, Each: each}, sp.Sizes, pol)
+								c := c02Case{Stack: stack, Dir: dir, L: L, Split: sp.Name, Writes: c02ShortWrites(sp.Sizes), Policy: pol.Name, Short: short, Each: each}
+								res := memconn.RunFidelity(t, c02Setup(ti, tr, stack, dir, short, sp.Sizes), c02Payload(payloads, L, dir), sp.Sizes, each, pol, &b.Buf)
+								var trk *c02Tracker
+								if res.Link != nil {
+									trk = res.Link.Extra.(*c02Tracker)
+									c.Trace = trk.trace()
+								}
+								if !b.Fidelity(stack, res, c) {
+									continue
+								}
+								for k, v := range trk.pairs {
+									pairs[k] += v
+								}
+								for _, m := range trk.mismatch {
+									mismatches++
+									r.Outcome("path-model-mismatch")
+									if mismatches <= 5 {
+										r.Note("path model mismatch at %+v: %s", c, m)
+									}
+								}
+								b.Distinct(c, stack, dir, frames, short, c.Trace)
 							}
 						}
 					}
@@ -556,25 +457,18 @@ func TestVerifC02Noise(t *testing.T) {
 		}
 	}
 done:
-	r.Distinct = int64(len(g.distinct))
-	// every transition of the reader's path automaton must have been taken (coverage, not a verdict);
-	// with several shards each worker sees its own slice, so report per worker and do not cap on it
-	var missing []string
+	// every transition of the reader's path automaton should have been taken (coverage, not a verdict)
+	var missing, extra []string
+	known := map[string]bool{}
 	for _, pp := range c02PathPairs {
-		r.Outcome(fmt.Sprintf("path-pair %s seen=%v", pp, g.pairs[pp] > 0))
-		if g.pairs[pp] == 0 {
+		known[pp] = true
+		r.Outcome(fmt.Sprintf("path-pair %s taken=%v", pp, pairs[pp] > 0))
+		if pairs[pp] == 0 {
 			missing = append(missing, pp)
 		}
 	}
-	var extra []string
-	for k := range g.pairs {
-		known := false
-		for _, pp := range c02PathPairs {
-			if pp == k {
-				known = true
-			}
-		}
-		if !known && !strings.Contains(k, "E") {
+	for k := range pairs {
+		if !known[k] && !strings.Contains(k, "E") {
 			extra = append(extra, k)
 		}
 	}
@@ -582,8 +476,10 @@ done:
 	if len(extra) > 0 {
 		r.Note("reader path pairs outside the computed automaton: %v", extra)
 	}
-	if len(missing) > 0 && !g.capped {
+	if mismatches > 0 {
+		r.Cap("the computed reader path differed from the observed one in %d reads: path coverage figures are unreliable", mismatches)
+	}
+	if len(missing) > 0 && !b.Capped() {
 		r.Cap("reader path pairs never taken in this worker: %v", missing)
 	}
-	_ = io.EOF
 }
